@@ -1154,24 +1154,26 @@ class ModelBuilder:
                         existing_deps = target_task.get("depends", scIdx) or []
                         if not isinstance(existing_deps, list):
                             existing_deps = [existing_deps] if existing_deps else []
-                        # Check if source_task is already in dependencies
+                        # The options of the precedes statement (gaps, onstart/onend) belong
+                        # to the dependency it creates, as if the target had written them
+                        options = (
+                            {
+                                key: prec_item.get(key)
+                                for key in ("gapduration", "gaplength", "maxgapduration", "onstart", "onend")
+                            }
+                            if isinstance(prec_item, dict)
+                            else {}
+                        )
+                        # A plain edge to a task that is a predecessor already adds nothing; an
+                        # edge with options of its own must hold next to the existing one
                         already_exists = False
-                        for dep in existing_deps:
-                            dep_task = dep.get("task") if isinstance(dep, dict) else dep
-                            if dep_task is source_task:
-                                already_exists = True
-                                break
+                        if not any(options.values()):
+                            for dep in existing_deps:
+                                dep_task = dep.get("task") if isinstance(dep, dict) else dep
+                                if dep_task is source_task:
+                                    already_exists = True
+                                    break
                         if not already_exists:
-                            # The options of the precedes statement (gaps, onstart/onend) belong
-                            # to the dependency it creates, as if the target had written them
-                            options = (
-                                {
-                                    key: prec_item.get(key)
-                                    for key in ("gapduration", "gaplength", "maxgapduration", "onstart", "onend")
-                                }
-                                if isinstance(prec_item, dict)
-                                else {}
-                            )
                             if any(options.values()):
                                 existing_deps.append(
                                     {
